@@ -423,6 +423,10 @@ impl<'a> Socket<'a> {
                             return Ok(());
                         }
                     };
+                    if ipv4_repr.dst_addr.is_unspecified() {
+                        net_trace!("raw: sent packet with unspecified destination, dropping.");
+                        return Ok(());
+                    }
                     net_trace!("raw:{:?}:{:?}: sending", ip_version, ip_protocol);
                     emit(cx, (IpRepr::Ipv4(ipv4_repr), packet.payload()))
                 }
@@ -447,6 +451,11 @@ impl<'a> Socket<'a> {
                             return Ok(());
                         }
                     };
+
+                    if ipv6_repr.dst_addr.is_unspecified() {
+                        net_trace!("raw: sent packet with unspecified destination, dropping.");
+                        return Ok(());
+                    }
 
                     net_trace!("raw:{:?}:{:?}: sending", ip_version, ip_protocol);
                     emit(cx, (IpRepr::Ipv6(ipv6_repr), packet.payload()))
